@@ -5,10 +5,10 @@ from props.bngen import hx, magnitude, signed
 TRUSTED = [
     "class A (Model/NtGcd.lean, Model/NtLehmer.lean mirror the C loops at value level; Lemmas/NtGcd*.lean, NtLehmer.lean prove model = Int.gcd / Bezout / lcm / inverse "
     "for all integers; the driver executes the models on every line and the exact outputs INCLUDING THE COFACTORS must coincide with the library's): bn_gcd_basic (= bn_gcd), "
-    "bn_gcd_binar, bn_gcd_dig, bn_gcd_ext_basic (= bn_gcd_ext) with bn_gcd_ext_sign, bn_gcd_ext_dig, bn_lcm, bn_mod_inv, bn_mod_inv_sim — theorems at full strength "
+    "bn_gcd_binar, bn_gcd_dig, bn_gcd_ext_basic (= bn_gcd_ext) with bn_gcd_ext_sign, bn_gcd_ext_dig, bn_gcd_ext_binar (incl. termination of its cofactor-reduction loop), "
+    "bn_lcm, bn_mod_inv, bn_mod_inv_sim — theorems at full strength "
     "(all integers, fuel proved sufficient)",
-    "class A with a partial theorem ('whenever the model returns'): bn_gcd_ext_binar (strip loop and main loop total and exact; termination of the final "
-    "cofactor-reduction loop within the model's fuel is observed on every line, not proved), bn_gcd_lehme / bn_gcd_ext_lehme (unimodular simulated matrix keeps the gcd, tracked "
+    "class A with a partial theorem ('whenever the model returns'): bn_gcd_lehme / bn_gcd_ext_lehme (unimodular simulated matrix keeps the gcd, tracked "
     "cofactor + exact division give Bezout; absence of dis_t overflow / negative intermediates / fuel exhaustion is checked by the model on every line — it then prints "
     "`model-overflow-or-fuel` — not proved)",
     "class C in the gcd family: bn_gcd_ext_mid (half-gcd for lattice reduction; not presented)",
